@@ -2,13 +2,14 @@
    Solver base-class shortcuts it inherits (is_sat / is_valid / is_unsat with pending_pop and
    the clear_pending_pop decorator), and of the STRICT SMT-LIB solver it talks to (the spec).
 
-   The model mirrors the code that exists, quirks included:
-     - push(levels) / pop(levels) append / remove ONE set of declarations whatever `levels` is;
-     - get_model queries only the symbols of declared_vars[-1];
-     - reset_assertions does not touch declared_vars;
+   The model mirrors the code that exists (after the C17 fixes a-d), quirks included:
+     - push(levels) / pop(levels) append / remove `levels` sets of declarations;
+     - get_model queries the symbols of every level of declared_vars;
+     - reset_assertions resets declared_vars to one empty level after the command succeeded;
      - every silent command and check-sat read ONE LINE of the reply pipe, get-value reads ONE
-       S-EXPRESSION and leaves the newline that terminates the reply in the pipe;
-     - get_value / get_model are not decorated with clear_pending_pop;
+       S-EXPRESSION and then the rest of its line;
+     - get_value / get_model are not decorated with clear_pending_pop, and get_value does not
+       declare the symbols of its term (open finding get-value-undeclared-symbol);
      - list.pop() / list[-1] on an empty Python list raise IndexError (werr below).
    Abstractions: symbols are numbers; a formula is an opaque atom with its list of free symbols
    (after `formula.simplify()`), or the negation of a formula; reply texts are abstracted to
@@ -79,17 +80,26 @@ Fixpoint declare_missing (fv : list sym) : M :=
 Definition clear_pending : M := guard (fun w =>
   if pending w then seq (set_pending false) (seq w_pop_level (emit (CPop 1))) w else (w, [])).
 
+Fixpoint repeat_m (n : nat) (a : M) : M :=
+  match n with 0 => ret | S k => seq a (repeat_m k a) end.
+(* self.declared_vars = [set()] *)
+Definition w_reset_record : M := guard (fun w => (mkW [[]] (pending w) false, [])).
+
 Definition add_assertion (f : form) : M :=
   seq clear_pending (seq (declare_missing (fvs f)) (emit (CAssert f))).
-Definition push (n : nat) : M := seq clear_pending (seq w_push_level (emit (CPush n))).
-Definition pop (n : nat) : M := seq clear_pending (seq w_pop_level (emit (CPop n))).
+(* for _ in range(levels): append / pop;  then the command *)
+Definition push (n : nat) : M :=
+  seq clear_pending (seq (repeat_m n w_push_level) (emit (CPush n))).
+Definition pop (n : nat) : M :=
+  seq clear_pending (seq (repeat_m n w_pop_level) (emit (CPop n))).
 Definition solve : M := seq clear_pending (emit CCheckSat).
-Definition reset_assertions : M := seq clear_pending (emit CResetAssertions).
+Definition reset_assertions : M :=
+  seq clear_pending (seq (emit CResetAssertions) w_reset_record).
 (* not decorated *)
 Definition get_value (t : list sym) : M := emit (CGetValue t).
-(* for s in self.declared_vars[-1]: self.get_value(s) *)
+(* for level in self.declared_vars: for s in level: self.get_value(s) *)
 Definition get_model : M := guard (fun w =>
-  match decl w with [] => (raise w, []) | top :: _ => (w, map (fun s => CGetValue [s]) top) end).
+  (w, map (fun s => CGetValue [s]) (concat (decl w)))).
 (* Solver.is_sat (options.incremental = True): push(); add_assertion(f); solve(); pending_pop = True *)
 Definition is_sat (f : form) : M :=
   seq (push 1) (seq (add_assertion f) (seq solve (set_pending true))).
@@ -185,8 +195,8 @@ End Spec.
 Inductive chunk := Body (k : nat) | NL.
 Inductive read_kind := ReadLine | ReadSexp | NoRead.
 (* _send_silent_command -> _check_success -> readline; solve -> readline;
-   get_value -> parser.get_assignment_list (tokenizer stops at the closing parenthesis);
-   _exit reads nothing *)
+   get_value -> parser.get_assignment_list (tokenizer stops at the closing parenthesis), then
+   readline for the rest of the line;  _exit reads nothing *)
 Definition reads (c : command) : read_kind :=
   match c with CGetValue _ => ReadSexp | CExit => NoRead | _ => ReadLine end.
 
@@ -220,7 +230,13 @@ Fixpoint sync_flags (k : nat) (pipe : list chunk) (cmds : list command) : list b
                     | None => false :: sync_flags (S k) pipe1 r
                     end
       | ReadSexp => match read_sexp pipe1 with
-                    | Some (j, p') => Nat.eqb j k :: sync_flags (S k) p' r
+                    | Some (j, p') =>
+                        match read_line p' with
+                        | Some (l, p'') =>
+                            (Nat.eqb j k && match l with [] => true | _ => false end)
+                              :: sync_flags (S k) p'' r
+                        | None => false :: sync_flags (S k) p' r
+                        end
                     | None => false :: sync_flags (S k) pipe1 r
                     end
       | NoRead => true :: sync_flags (S k) pipe1 r
@@ -228,19 +244,16 @@ Fixpoint sync_flags (k : nat) (pipe : list chunk) (cmds : list command) : list b
   end.
 Definition in_sync (cmds : list command) : bool := forallb (fun b => b) (sync_flags 0 [] cmds).
 
-(* exact criterion (proved equivalent in the proofs file): a three-state automaton over the
-   stream.  PClean: pipe empty; PDirty: only newlines left over from get-value replies;
-   PBroken: an unread reply (the one to `exit`) sits in the pipe. *)
-Inductive pstate := PClean | PDirty | PBroken.
+(* exact criterion (proved equivalent in the proofs file): the pipe is empty before every
+   command unless an unread reply (the one to `exit`) sits in it. *)
+Inductive pstate := PClean | PBroken.
 Fixpoint sync_ok (st : pstate) (cmds : list command) : bool :=
   match cmds with
   | [] => true
   | c :: r => match reads c, st with
-              | ReadLine, PClean => sync_ok PClean r
-              | ReadLine, _ => false               (* a line read after a get-value: desync *)
-              | ReadSexp, PBroken => false
-              | ReadSexp, _ => sync_ok PDirty r
               | NoRead, _ => sync_ok PBroken r
+              | _, PClean => sync_ok PClean r
+              | _, PBroken => false
               end
   end.
 
@@ -273,10 +286,6 @@ Fixpoint user_legal (d : nat) (h : list api_call) : bool :=
   | AExit :: r => match r with [] => true | _ => false end
   | _ :: r => user_legal d r
   end.
-Definition unit_call (a : api_call) : bool :=
-  match a with APush n | APop n => Nat.eqb n 1 | AReset => false | _ => true end.
-(* the fragment on which the wrapper is proved correct: one level per push / pop, no reset *)
-Definition unit_levels (h : list api_call) : bool := forallb unit_call h.
 
 (* the assertion stack the user means (top first): what an ideal incremental solver holds *)
 Definition ideal := list (list form).
@@ -306,7 +315,7 @@ Definition verdict_of (rs : list reply) : option bool :=
   match last rs RSuccess with RVerdict b => Some b | _ => None end.
 
 (* symbols get_model asks the solver about *)
-Definition model_queries (w : wstate) : list sym := hd [] (decl w).
+Definition model_queries (w : wstate) : list sym := concat (decl w).
 
 (* ------------------------------------- comparison with the implementation *)
 (* The implementation iterates Python sets (free variables of a formula, declared_vars[-1]); the
